@@ -13,7 +13,9 @@ DevCopy == {"copy-mss"}
 DevCtlIden == {"cone-ctliden"}
 DevSharedInfo == {"copy-shared-info"}
 DevExpecCopy == {"expec-copy-info"}
-DevAll == {"upd-special", "copy-mss", "cone-ctliden", "perm-swap", "perm-ctrl", "copy-shared-info", "expec-copy-info"}
+DevCondKey == {"cond-key-values-only"}
+DevSampleInfo == {"sample-shared-info"}
+DevAll == {"upd-special", "copy-mss", "cone-ctliden", "perm-swap", "perm-ctrl", "copy-shared-info", "expec-copy-info", "cond-key-values-only", "sample-shared-info"}
 NewParamsC == [n \in ParamNames1 \cup ParamNames2 |->
                  IF n \in {"RX", "RY", "RZ", "RXX", "RYY", "RZZ", "CRX", "CRY", "CRZ"} THEN {<<2>>, <<6>>, <<4>>}
                  ELSE IF ParamArity(n) = 1 THEN {<<1>>, <<3>>, <<6>>}
@@ -28,6 +30,7 @@ QDense(r) == [kind |-> "dense", rev |-> r]
 QPtr(k) == [kind |-> "ptr", keep |-> k]
 QExp(op, w) == [kind |-> "expec", op |-> op, where |-> w]
 QMarg(w, f) == [kind |-> "marg", where |-> w, fix |-> f]
+QCond(w, f) == [kind |-> "cond", where |-> w, fix |-> f]
 
 (* ---- exhaustive, exact Circuit, N = 2 (one representative per family and arity) *)
 GatesE2 == { G("H", <<0>>, e0, e0), G("X_1_2", <<1>>, e0, e0), G("CX", <<0, 1>>, e0, e0), G("ISWAP", <<1, 0>>, e0, e0),
@@ -43,6 +46,9 @@ GatesE2q == { G("H", <<0>>, e0, e0), G("CX", <<0, 1>>, e0, e0), G("SWAP", <<0, 1
 QueriesE2q == { QAmp(<<0, 1>>), QDense(FALSE), Q("uni"), QPtr(<<0>>), QPtr(<<1, 0>>),
                 QExp("P01", <<1>>), QMarg(<<1>>, << <<0, 1>> >>), Q("sample") }
 
+\* the conditional-key self-test: (|000> + |011>)/sqrt2, p(q1 | q0 = 0) differs from p(q1 | q2 = 0)
+GatesK3 == { G("H", <<1>>, e0, e0), G("CX", <<1, 2>>, e0, e0) }
+QueriesK3 == { QCond(<<1>>, << <<0, 0>> >>), QCond(<<1>>, << <<2, 0>> >>) }
 \* the copy self-test needs depth 5 (gate, query, copy, switch, sample): tiny alphabet
 GatesC1 == { G("H", <<0>>, e0, e0) }
 QueriesC1 == { QDense(FALSE), Q("sample") }
@@ -62,7 +68,8 @@ GatesE3 == { G("H", <<0>>, e0, e0), G("T", <<2>>, e0, e0), G("CX", <<0, 2>>, e0,
              G("X", <<1>>, <<2, 0>>, e0), G("SWAP", <<0, 1>>, <<2>>, e0), G("R2A", <<2, 0>>, e0, e0),
              GP("RZ", <<1>>, <<0>>, <<2>>), G("IDEN", <<0>>, <<2>>, e0) }
 QueriesE3 == { QAmp(<<1, 0, 1>>), QDense(FALSE), QPtr(<<0>>), QPtr(<<2>>), QPtr(<<2, 0>>), QPtr(<<1>>),
-               QExp("P01", <<1>>), QExp("YZ", <<0, 2>>), QMarg(<<2>>, << <<0, 1>> >>), QMarg(<<1, 0>>, <<>>), Q("sample") }
+               QExp("P01", <<1>>), QExp("YZ", <<0, 2>>), QMarg(<<2>>, << <<0, 1>> >>), QMarg(<<1, 0>>, <<>>), Q("sample"),
+               QCond(<<1>>, << <<0, 0>> >>), QCond(<<1>>, << <<2, 0>> >>) }
 
 (* ---- CircuitPermMPS, N = 3 *)
 GatesP3 == { G("H", <<0>>, e0, e0), G("T", <<2>>, e0, e0), G("CX", <<0, 2>>, e0, e0), G("CX", <<2, 0>>, e0, e0),
@@ -75,8 +82,8 @@ GatesP3q == { G("H", <<0>>, e0, e0), G("T", <<2>>, e0, e0), G("CX", <<0, 2>>, e0
               G("SWAP", <<0, 1>>, e0, e0), G("SWAP", <<0, 2>>, e0, e0) }
 \* the canonical-form record self-tests (two live objects / a query that works on a copy of the MPS)
 GatesS3 == { G("CX", <<0, 2>>, e0, e0), G("ISWAP", <<1, 2>>, e0, e0) }
-QueriesS3 == { QExp("P01", <<2>>), [kind |-> "expec", op |-> "P01", where |-> <<0>>, viacopy |-> TRUE] }
+QueriesS3 == { QExp("P01", <<2>>), [kind |-> "expec", op |-> "P01", where |-> <<0>>, viacopy |-> TRUE], Q("sample") }
 QueriesP3 == { QDense(FALSE), QAmp(<<1, 0, 1>>), QExp("P01", <<2>>), QExp("E0110", <<2, 0>>),
-               [kind |-> "expec", op |-> "P01", where |-> <<0>>, viacopy |-> TRUE] }
+               [kind |-> "expec", op |-> "P01", where |-> <<0>>, viacopy |-> TRUE], Q("sample") }
 
 =============================================================================
